@@ -58,6 +58,8 @@ pub enum SRes {
     Filter(Option<FilterKind>),
     HeadItems(Vec<(u64, [u8; 32])>, usize),
     Panic,
+    /// get_all succeeded but the store's fingerprint of the whole document is not the fingerprint of these entries
+    BadFingerprint,
 }
 
 pub struct Machine {
@@ -214,7 +216,24 @@ impl Machine {
                 }
                 SRes::Namespaces(v)
             }
-            SOp::GetAll { ns } => SRes::Entries(all_entries(self.ts.s(), NamespaceId::from(ns))?),
+            SOp::GetAll { ns } => {
+                let entries = all_entries(self.ts.s(), NamespaceId::from(ns))?;
+                // the store's own fingerprint of the whole document (what a session starts with)
+                // must be the fingerprint of exactly these entries
+                let mut want = iroh_docs::verif::empty_fingerprint();
+                for e in &entries {
+                    let f = iroh_docs::verif::entry_fingerprint(e);
+                    for i in 0..32 { want[i] ^= f[i]; }
+                }
+                let got = self.with_replica(*ns, |r, _| {
+                    let x = iroh_docs::sync::RecordIdentifier::default();
+                    iroh_docs::verif::store_get_fingerprint(r, x.clone(), x)
+                });
+                match got {
+                    Ok(Ok(fp)) if fp != want => SRes::BadFingerprint,
+                    _ => SRes::Entries(entries),
+                }
+            }
             SOp::Matches { policy, key } => {
                 let id = iroh_docs::sync::RecordIdentifier::new(NamespaceId::from(&[1u8; 32]), AuthorId::from(&[2u8; 32]), key);
                 let entry = iroh_docs::sync::Entry::new(id, iroh_docs::sync::Record::empty(1));
@@ -346,6 +365,7 @@ pub fn csres(r: &SRes) -> String {
         SRes::Filter(f) => format!("(RFilter {})", coption(f.as_ref(), cfilter)),
         SRes::HeadItems(items, len) => format!("(RHeadItems {} {})", clist(items, |(t, a)| format!("({}, {})", t, n256(a))), len),
         SRes::Panic => "RFail".into(),
+        SRes::BadFingerprint => "RBadFingerprint".into(),
     }
 }
 
